@@ -45,8 +45,14 @@ func lexClass(t parser.ItemType) string {
 }
 
 // lexTrace runs the exported lexer over src and returns the trace lines (bounded: a runaway lexer is cut off).
-func lexTrace(src string) []map[string]any {
-	out := []map[string]any{{"ev": "src", "s": intsOf(src), "cls": "", "pos": 0, "len": 0}}
+func lexTrace(src string) (out []map[string]any) {
+	out = []map[string]any{{"ev": "src", "s": intsOf(src), "cls": "", "pos": 0, "len": 0}}
+	defer func() {
+		// a panic out of the exported lexer is an event no action of the specification matches: the trace is rejected
+		if r := recover(); r != nil {
+			out = append(out, map[string]any{"ev": "panic", "s": []int{}, "cls": fmt.Sprint(r), "pos": 0, "len": 0})
+		}
+	}()
 	lx := parser.Lex(src)
 	for n := 0; n < len(src)+5; n++ {
 		var it parser.Item
